@@ -1,0 +1,13 @@
+//go:build !verif
+// +build !verif
+
+package veriftrace
+
+// Enabled reports whether tracing is compiled in.
+const Enabled = false
+
+// Emit records one event. No-op without the verif build tag.
+func Emit(component, id, event string, kv ...interface{}) {}
+
+// Gate is a scheduling point a harness may block. No-op without the verif build tag.
+func Gate(name string) {}
